@@ -366,8 +366,8 @@ def replay(case, ctx):
 
 
 def plan(tier, seed):
-    nd, per = (8, 2500) if tier == "quick" else (16, 150000)
-    ni, peri = (8, 250) if tier == "quick" else (16, 15000)
+    nd, per = (8, 12000) if tier == "quick" else (16, 150000)
+    ni, peri = (8, 1500) if tier == "quick" else (16, 15000)
     return [{"kind": "direct", "n": per} for _ in range(nd)] + [{"kind": "insitu", "n": peri} for _ in range(ni)]
 
 
